@@ -273,8 +273,11 @@ fn pair_case(k: usize) -> Option<(Model, Vec<(Role, String)>)> {
     let f = PAIR_FIELDS[k % PAIR_FIELDS.len()];
     let k = k / PAIR_FIELDS.len();
     let i = k % 3;
-    let tuple_target = (k / 3) % 2 == 1;
-    if k / 6 > 0 {
+    // how the struct named `{f}_{i}` is written: empty fieldset, tuple with a used field, named fieldset
+    // with only `_` fields, tuple fieldset with only `_` fields (the last three are all *emitted* as
+    // unit-like or tuple structs), named fieldset with a used field (a braced struct: control)
+    let target_shape = (k / 3) % 5;
+    if k / 15 > 0 {
         return None;
     }
     let target = format!("{f}_{i}");
@@ -291,7 +294,13 @@ fn pair_case(k: usize) -> Option<(Model, Vec<(Role, String)>)> {
         Nt {
             name: target.clone(),
             is_enum: false,
-            prods: vec![if tuple_target { Prod { name: String::new(), style: Style::Tuple, fields: vec![t(true)] } } else { Prod { name: String::new(), style: Style::Empty, fields: vec![] } }],
+            prods: vec![match target_shape {
+                0 => Prod { name: String::new(), style: Style::Empty, fields: vec![] },
+                1 => Prod { name: String::new(), style: Style::Tuple, fields: vec![t(true)] },
+                2 => Prod { name: String::new(), style: Style::Named, fields: vec![t(false), t(false)] },
+                3 => Prod { name: String::new(), style: Style::Tuple, fields: vec![t(false)] },
+                _ => Prod { name: String::new(), style: Style::Named, fields: vec![Field { sym: Sym::T(0), used: true, name: "val".into() }] },
+            }],
             attrs: vec![],
         },
         Nt { name: "B".into(), is_enum: false, prods: vec![Prod { name: String::new(), style: Style::Tuple, fields: vec![t(true)] }], attrs: vec![] },
@@ -301,7 +310,7 @@ fn pair_case(k: usize) -> Option<(Model, Vec<(Role, String)>)> {
 }
 
 pub fn n_systematic() -> usize {
-    systematic_singles().len() + PAIR_FIELDS.len() * 6
+    systematic_singles().len() + PAIR_FIELDS.len() * 15
 }
 
 pub fn c05_case(seed: u64, idx: u64) -> Option<(Model, String, String, Vec<(Role, String)>, bool)> {
